@@ -493,6 +493,25 @@ def parse_tool(repo, name, rel):
             if s.v[b0 + 1:b0 + 1 + len(exp)] != exp:
                 raise Problem("%s: option %s: block does not start with assert_non_conflicting_options(argv[0],++num_options)" % (rel, aliases[0]))
             bs = BlockScan(s, b0 + 1 + len(exp), b1)
+            # every Geometry built in the block: does the ordering flag (a declared boolean option variable) reach the constructor?
+            geos = []
+            flagvars = {d["var"] for d in tool["decls"] if d["kind"] == "bool"}
+            for q in range(b0, b1):
+                if s.v[q] == "Geometry" and s.k[q] == "id" and s.k[q + 1] == "id" and s.v[q + 2] == "(":
+                    e = s.match[q + 2]; args = []; cur = []; depth_j = q + 3
+                    while depth_j <= e:
+                        if depth_j == e or (s.v[depth_j] == "," ):
+                            args.append(cur); cur = []
+                        elif s.k[depth_j] == "op" and s.v[depth_j] in OPEN:
+                            cur += s.v[depth_j:s.match[depth_j] + 1]; depth_j = s.match[depth_j]
+                        else: cur.append(s.v[depth_j])
+                        depth_j += 1
+                    if len(args) == 2: geos.append("")
+                    elif len(args) == 3 and len(args[2]) == 1 and args[2][0] in flagvars: geos.append(args[2][0])
+                    elif len(args) == 3 and args[2] in (["false"], ["true"]): geos.append("")
+                    else: raise Problem("%s: option %s: Geometry built with unrecognised arguments `%s`" % (rel, aliases[0], s.txt(q + 3, e)))
+                elif s.v[q] == "Geometry" and s.k[q] == "id" and s.v[q - 1] not in ("const", ";", "{", "}") and s.v[q + 1] != "&":
+                    pass
             variant = []
             for bl in bs.brace_lists:
                 inter = [a for a in bl if a in aliases]
@@ -503,7 +522,7 @@ def parse_tool(repo, name, rel):
                     variant = bl
             if variant and not any(u["k"] == 0 for u in bs.uses):
                 raise Problem("%s: option %s: alias subset without a read of opt_parms[0]" % (rel, aliases[0]))
-            tool["blocks"].append(dict(aliases=aliases, multi=multi, parms=parms, uses=bs.uses, variant=variant))
+            tool["blocks"].append(dict(aliases=aliases, multi=multi, parms=parms, uses=bs.uses, variant=variant, geos=geos))
             tool["has_blocks"] = True
             recognised_option_calls += 1
             if s.v[b1 + 1] == "else": raise Problem("%s: option %s: else branch on an option block" % (rel, aliases[0]))
@@ -770,9 +789,9 @@ def emit(tools):
         bl = []
         for b in t["blocks"]:
             us = ["{| u_k := %d; u_guard := %s; u_sink := %s; u_argpos := %d; u_kind := %s |}" % (u["k"], clist([catom(a) for a in u["guard"]]), cstr(u["sink"]), u["argpos"], PK[u["kind"]]) for u in b["uses"]]
-            bl.append("{| b_aliases := %s;\n       b_multi := %s;\n       b_parms := %s;\n       b_variant := %s;\n       b_doc := %s;\n       b_uses := %s |}" % (
+            bl.append("{| b_aliases := %s;\n       b_multi := %s;\n       b_parms := %s;\n       b_variant := %s;\n       b_geo := %s;\n       b_doc := %s;\n       b_uses := %s |}" % (
                 clist([cstr(a) for a in b["aliases"]]), "true" if b["multi"] else "false", clist([cstr(p) for p in b["parms"]]),
-                clist([cstr(a) for a in b["variant"]]),
+                clist([cstr(a) for a in b["variant"]]), clist([cstr(g) for g in b.get("geos", [])]),
                 clist(["(%s, %s)" % (PK[d["kind"]], "true" if d["optional"] else "false") for d in (b.get("doc") or [])]), clist(us)))
         o.append("  t_blocks := [" + ";\n    ".join(bl) + "];")
         o.append("  t_unknown_exit := %s;" % ("None" if t["unknown_exit"] is None else "Some " + cz(t["unknown_exit"])))
